@@ -44,7 +44,7 @@ def run(cmd, timeout, mem_gb=24, cwd=None):
 class Group:
     """Configuration of one obligation group."""
     def __init__(self, name, harness, enforce=None, replace=(), loop_contracts=False, unwind=None,
-                 unwindset=None, checks=None, floats=False, backend='sat', timeout=600, mem_gb=24,
+                 unwindset=None, checks=None, floats=False, backend='sat', timeout=1800, mem_gb=24,
                  tier='quick', defines=(), canary=True, min_props=1, expect_loop_props=0, object_bits=12,
                  rec=False, note='', extra_cbmc=(), no_unwind_funcs=(), property_ids=None, covers=None,
                  slice_=False, cases=None, mode='dfcc', m_pre='', bounded=''):
